@@ -2,6 +2,7 @@
 
 LAYER_DEFAULTS = {
     'tracer': {'quick': {'n': 60, 'size': 40, 'shards': 2}, 'thorough': {'n': 400, 'size': 120, 'shards': 16}},
+    'cancun': {'quick': {'n': 150, 'size': 20, 'shards': 2}, 'thorough': {'n': 3000, 'size': 20, 'shards': 16}},
     'precompile': {'quick': {'n': 150, 'size': 20, 'shards': 2}, 'thorough': {'n': 3000, 'size': 20, 'shards': 16}},
     'journal': {'quick': {'n': 60, 'size': 20, 'shards': 2}, 'thorough': {'n': 400, 'size': 100, 'shards': 16}},
 }
@@ -23,12 +24,25 @@ TB_M3 = ['vm/contracts.go aspcontext/userOpSender/contextWriter/loadParamBytes a
          'CALL/CALLCODE/DELEGATECALL/STATICCALL bytecode at depth 1-3 on forks either side of Berlin, host callbacks logging their arguments',
          'ABI dynamic-bytes encoding as written in Artela/Spec/Abi.lean (abiBytes), and independently in the Go harness (abiEncode2)']
 
+TB_M6 = ['vm/eips.go opMcopy/opTload/opTstore, vm/memory.go Copy, vm/memory_table.go memoryMcopy, vm/common.go calcMemSize64/toWordSize, '
+         'vm/gas_table.go memoryGasCost/memoryCopierGas and the interpreter loop for an entry with memorySize are modelled by hand '
+         '(Artela/Model/Memory.lean, exact uint64 arithmetic); tied by executing MCOPY / TLOAD / TSTORE in real bytecode on a Cancun '
+         'configuration and comparing memory, MSIZE, step cost, loaded values and call flags',
+         'EIP-5656 / EIP-1153 as written in Props/C15.lean (memmoveSpec, mcopyNewLen, mcopyCost) and in Driver/Memory.lean (specMemmove)']
+
 PROPS = {
     'C09': {
         'modules': ['Artela.Props.C09'],
         'runs': [{'layer': 'journal'}],
         'trusted_base': TB_M1 + TB_M2 + ['Solidity storage layout as written in Artela/Spec/Solidity.lean (solPacked, solString) and, independently, in the Go harness (putString)'],
         'assumptions': ['storage words are < 2^256 (common.Hash)', 'Go append returns capacity >= length'],
+    },
+    'C15': {
+        'modules': ['Artela.Props.C15', 'Artela.Proofs.GenFacts'],
+        'runs': [{'layer': 'cancun'}],
+        'trusted_base': TB_M6 + TB_GEN,
+        'assumptions': ['interpreter memory invariant: word-aligned length, lastGasCost = fee(length/32), length <= 0x1FFFFFFFE0 (inherited Resize/memoryGasCost, identical to upstream)',
+                        'StateDB contract: transient storage is journaled and emptied by Prepare (go-ethereum state.StateDB)'],
     },
     'C14': {
         'modules': ['Artela.Props.C14', 'Artela.Proofs.GenFacts'],
@@ -50,9 +64,9 @@ PROPS = {
         'partial': 'c20_full is FALSE for the current code (c20_witness_reference_unbounded); proved: c20_partial, c20_value_journal, c20_value_key_journals, c20_key_journal_partial, c20_reference_journal_partial. Known findings D5 (VRJNAL) and D7 (memory-keyed registrations).',
     },
     'C03': {
-        'modules': ['Artela.Props.C03', 'Artela.Props.C14'],
-        'runs': [{'layer': 'journal'}, {'layer': 'precompile'}],
-        'trusted_base': TB_M1 + TB_M2 + TB_M3,
+        'modules': ['Artela.Props.C03', 'Artela.Props.C14', 'Artela.Props.C15'],
+        'runs': [{'layer': 'journal'}, {'layer': 'precompile'}, {'layer': 'cancun'}],
+        'trusted_base': TB_M1 + TB_M2 + TB_M3 + TB_M6,
         'assumptions': ['inherited instructions are panic-free on an initialised host (identity-checked against go-ethereum v1.12.0, not modelled)',
                         'memory length <= 2^47 (memory expansion gas caps it at 0x1FFFFFFFE0 words)'],
         'partial': 'c03_partial: Artela-added code (journal opcodes so far) modelled and proved panic-free; inherited instruction bodies assumed',
